@@ -1,8 +1,8 @@
 // Driver for C06 (allocator level): replays call sequences on the real
 // identifier allocator and records every call with its result.
 //
-//   idpool -scenarios file    one JSON object per line: {"min":1,"max":3,"calls":[{"op":"get","i":0},...]}
-//   idpool -random N -len L   seeded random histories on small and production-size ranges
+//	idpool -scenarios file    one JSON object per line: {"min":1,"max":3,"calls":[{"op":"get","i":0},...]}
+//	idpool -random N -len L   seeded random histories on small and production-size ranges
 package main
 
 import (
@@ -102,8 +102,8 @@ func main() {
 	seed, _ := strconv.ParseInt(os.Getenv("VERIF_SEED"), 10, 64)
 	rng := rand.New(rand.NewSource(seed*7919 + 17))
 	for k := 0; k < *nrand; k++ {
-		min := int32(rng.Intn(3))           // 0,1,2
-		max := min + int32(rng.Intn(6))     // size 1..6
+		min := int32(rng.Intn(3))       // 0,1,2
+		max := min + int32(rng.Intn(6)) // size 1..6
 		s := scenario{Min: min, Max: max}
 		// phases: mostly-get / mostly-put, so that exhaustion and emptiness are both reached
 		pget := 0.5
